@@ -197,6 +197,67 @@ def derived(tier, rng):
         add(f"stack([q{rq}, m{rm}+n{rn}])[:, idx{ix}]",
             lambda mk3=mk3, idx=idx: ((lambda m, n, q: da.stack([q, m + n])[:, idx])(*mk3()),
                                       np.stack([npq, npe])[:, idx], {}))
+    # routines with their own hand-written `chunks` formula, on irregular layouts (a square 2-D input whose row and
+    # column layouts differ but share the largest block, and a ragged 1-D input)
+    sq = np.arange(64.0).reshape(8, 8)
+    v7 = (np.arange(7.0) * 5) % 7
+    for rows, cols in [((3, 3, 2), (3, 2, 3)), ((2, 3, 3), (3, 3, 2)), ((3, 3, 2), (3, 3, 2)), ((4, 4), (2, 2, 2, 2))]:
+        def mk2(rows=rows, cols=cols):
+            return da.from_array(sq, chunks=(rows, cols))
+        tag = f"sq{rows}x{cols}"
+        for name, f, g in [
+            ("diag", lambda x: da.diag(x), lambda a: np.diag(a)),
+            ("diag(x[1:, :-1])", lambda x: da.diag(x[1:, :-1]), lambda a: np.diag(a[1:, :-1])),
+            ("diag(k=1)", lambda x: da.diag(x, k=1), lambda a: np.diag(a, k=1)),
+            ("diagonal", lambda x: da.diagonal(x), lambda a: np.diagonal(a)),
+            ("diagonal(offset=-2)", lambda x: da.diagonal(x, offset=-2), lambda a: np.diagonal(a, offset=-2)),
+            ("tril", lambda x: da.tril(x), lambda a: np.tril(a)),
+            ("triu(k=1)", lambda x: da.triu(x, k=1), lambda a: np.triu(a, k=1)),
+            ("topk(3, axis=1)", lambda x: da.topk(x, 3, axis=1), lambda a: np.flip(np.sort(a, axis=1), axis=1)[:, :3]),
+            ("flip(0)", lambda x: da.flip(x, 0), lambda a: np.flip(a, 0)),
+            ("roll(3, axis=1)", lambda x: da.roll(x, 3, axis=1), lambda a: np.roll(a, 3, axis=1)),
+            ("repeat(2, axis=0)", lambda x: da.repeat(x, 2, axis=0), lambda a: np.repeat(a, 2, axis=0)),
+            ("tile((1,2))", lambda x: da.tile(x, (1, 2)), lambda a: np.tile(a, (1, 2))),
+            ("pad(1)", lambda x: da.pad(x, 1, mode="constant"), lambda a: np.pad(a, 1, mode="constant")),
+            ("squeeze(x[:, 2:3])", lambda x: da.squeeze(x[:, 2:3]), lambda a: np.squeeze(a[:, 2:3])),
+            ("ravel", lambda x: x.ravel(), lambda a: a.ravel()),
+            ("reshape(2,4,8)", lambda x: x.reshape(2, 4, 8), lambda a: a.reshape(2, 4, 8)),
+            ("reshape(64).reshape(4,16)", lambda x: x.reshape(64).reshape(4, 16), lambda a: a.reshape(4, 16)),
+            ("swapaxes", lambda x: da.swapaxes(x, 0, 1), lambda a: np.swapaxes(a, 0, 1)),
+            ("cumsum(axis=1)", lambda x: da.cumsum(x, axis=1), lambda a: np.cumsum(a, axis=1)),
+            ("diff(axis=0)", lambda x: da.diff(x, axis=0), lambda a: np.diff(a, axis=0)),
+            ("where(x>20, x, -x)", lambda x: da.where(x > 20, x, -x), lambda a: np.where(a > 20, a, -a)),
+            ("coarsen(sum,{0:2,1:2})", lambda x: da.coarsen(np.sum, x, {0: 2, 1: 2}), lambda a: a.reshape(4, 2, 4, 2).sum(axis=(1, 3))),
+            ("argmax(axis=0)", lambda x: da.argmax(x, axis=0), lambda a: np.argmax(a, axis=0)),
+            ("apply_gufunc(sum, (i)->())", lambda x: da.apply_gufunc(lambda t: t.sum(axis=-1), "(i)->()", x.rechunk({1: -1}), output_dtypes=float),
+             lambda a: a.sum(axis=-1)),
+            ("map_overlap(depth=1, trim=False)", lambda x: x.map_overlap(lambda b: b, depth=1, boundary="reflect", trim=False),
+             None),
+        ]:
+            add(f"{tag}.{name}", lambda mk2=mk2, f=f, g=g: (f(mk2()), (g(sq) if g is not None else None), {}))
+        # a 1-D boolean dask mask on a layout-drifting 2-D input (the mask's nan chunks are a literal of the input's layout)
+        mrow = np.array([True, False, True, True, False, False, True, True])
+        add(f"{tag}.swv(axis=1).sum(-1)[row mask] [layout-drifting, unknown chunks]",
+            lambda mk2=mk2: ((lambda x: da.sliding_window_view(x, 3, axis=1).sum(-1)[da.from_array(mrow, chunks=(x.chunks[0],))])(mk2()),
+                             np.lib.stride_tricks.sliding_window_view(sq, 3, axis=1).sum(-1)[mrow],
+                             {"layout_drifting": True, "unknown_chunks": True}))
+    for ch in [(3, 3, 1), (2, 5), (7,)]:
+        def mk1(ch=ch):
+            return da.from_array(v7, chunks=(ch,))
+        for name, f, g in [
+            ("topk(5)", lambda x: da.topk(x, 5), lambda a: np.sort(a)[::-1][:5]),
+            ("topk(9) [k > n]", lambda x: da.topk(x, 9), lambda a: np.sort(a)[::-1][:9]),
+            ("argtopk(-2)", lambda x: da.argtopk(x, -2), lambda a: np.argsort(a)[:2]),
+            ("repeat(3)", lambda x: da.repeat(x, 3), lambda a: np.repeat(a, 3)),
+            ("tile(2)", lambda x: da.tile(x, 2), lambda a: np.tile(a, 2)),
+            ("pad((2,1), edge)", lambda x: da.pad(x, (2, 1), mode="edge"), lambda a: np.pad(a, (2, 1), mode="edge")),
+            ("diag(v)", lambda x: da.diag(x), lambda a: np.diag(a)),
+            ("outer ones(1) + x via map_blocks", lambda x: da.map_blocks(np.add, da.ones((1,), chunks=1), x.rechunk(-1)), lambda a: 1 + a),
+            ("apply_gufunc on swv.sum [layout-drifting]",
+             lambda x: da.apply_gufunc(lambda t: t * 2, "()->()", da.sliding_window_view(x, 3).sum(-1), output_dtypes=float),
+             lambda a: np.lib.stride_tricks.sliding_window_view(a, 3).sum(-1) * 2),
+        ]:
+            add(f"v7{ch}.{name}", lambda mk1=mk1, f=f, g=g: (f(mk1()), g(v7), {}))
     # creation routines and a persisted input
     add("arange(7, chunks=3)", lambda: (da.arange(7, chunks=3), np.arange(7), {}))
     add("ones((3,4), chunks=2)*3", lambda: (da.ones((3, 4), chunks=2) * 3, np.ones((3, 4)) * 3, {}))
